@@ -188,16 +188,9 @@ def parse_ns_out(text):
 
 
 def build_real_binary(ctx):
-    """the real binary, from the working tree, WITHOUT the verification cfg"""
-    tdir = os.path.join(ctx["build"], "listing", "target")
-    os.makedirs(tdir, exist_ok=True)
-    with ctx["Lock"]("listing-realbin"):
-        rc, out, _ = ctx["sh"]("cargo build --offline 2>&1 | tail -5", cwd=ctx["repo"], timeout=1500,
-                               env={"CARGO_TARGET_DIR": tdir, "RUSTFLAGS": ""})
-    binp = os.path.join(tdir, "debug", "totalmapper")
-    if "Finished" not in out or not os.path.exists(binp):
-        return None, out[-300:]
-    return binp, ""
+    """the real binary, from the working tree, WITHOUT the verification cfg (shared with the cli engine)"""
+    from engines import _realbin
+    return _realbin.build_real_binary(ctx)
 
 
 def namespace_run(ctx, work, tier, res_stats):
@@ -365,7 +358,6 @@ def replay(ctx, rp):
         shutil.rmtree(work, ignore_errors=True)
         os.makedirs(os.path.join(work, "ns"))
         open(os.path.join(work, "ns", "0000.spec"), "w").write("\n".join(inp["spec"]) + "\n")
-        real_bin = os.path.join(ctx["build"], "listing", "target", "debug", "totalmapper")
         cmd = "unshare -m %s listing-ns --dir %s --out %s" % (ctx["harness"], os.path.join(work, "ns"), os.path.join(work, "ns.out"))
         if "real-binary" in str(inp.get("via")) or "real-binary" in str(inp.get("what")):
             rb, err = build_real_binary(ctx)
